@@ -4363,6 +4363,14 @@ func (p *Posix) CopyObject(ctx context.Context, input s3response.CopyObjectInput
 		}
 		version = backend.GetPtrFromString(string(vId))
 
+		// REPLACE stores exactly the supplied content headers: drop the
+		// ones the object carries, then store the provided ones
+		for _, hdr := range []string{contentTypeHdr, contentEncHdr, contentDispHdr, contentLangHdr, cacheCtrlHdr, expiresHdr} {
+			err := p.meta.DeleteAttribute(dstBucket, dstObject, hdr)
+			if err != nil && !errors.Is(err, meta.ErrNoSuchKey) {
+				return nil, fmt.Errorf("delete object meta property: %w", err)
+			}
+		}
 		// Store the provided object meta properties
 		err = p.storeObjectMetadata(nil, dstBucket, dstObject,
 			objectMetadata{
